@@ -18,7 +18,7 @@ RULE = (
     "constraint sets {None,[1,2],[0,1,2],[1,2,4,5],[0..5]} x nel x tip loads {force -e2,+e2,e3,generic; body moment e3,generic; both; "
     "displacement-controlled tip support without/with force} x load steps x solver options {tight 1e-10, default 1e-6}; large loads x "
     "{2,3,30 Newton iterations} for natural early stops; cantilever tip against a frictionless plane; point mass on three springs over a "
-    "plane (5 load paths x force/compliance springs x stiff/soft); rigid body on a revolute joint with torsional spring with/without plane "
+    "plane (5 load paths x force/compliance springs x stiff/soft, progress bar on for > 1 load step); rigid body on a revolute joint with torsional spring with/without plane "
     "contact; Riks on the 1-DOF truss (la_arc0 x iter_goal x max_load_steps), on cantilevers and on the point-mass scene; every problem "
     "solved in each rigid placement {I, quarter turn about e3, generic rotation+translation (+ quarter turn about e1, half turn, "
     "translation in the thorough tier)}.  A case is non-trivial if at least one run returned a row whose configuration or multipliers "
@@ -82,7 +82,7 @@ def cases(tier, seed):
         for load in PM_LOADS:
             for spring in ("force", "compliance"):
                 for n in (1, 3, 10):
-                    add(kind="pm_plane", load=load, spring=spring, stiff=stiff, nsteps=n, opts="tight", places=P6 if thorough else P3)
+                    add(kind="pm_plane", load=load, spring=spring, stiff=stiff, nsteps=n, opts="tight", verbose=(n != 1), places=P6 if thorough else P3)
     # --- rigid body arm
     for contact in (True, False):
         for load in RB_LOADS:
@@ -236,7 +236,7 @@ def _solve(case, system):
                 out["sol"] = Riks(system, la_arc0=case["la_arc0"], la_arc_span=np.array(span), iter_goal=case["iter_goal"], options=opts,
                                   max_load_steps=case["max_load_steps"]).solve()
             else:
-                out["sol"] = Newton(system, n_load_steps=case["nsteps"], verbose=False, options=opts).solve()
+                out["sol"] = Newton(system, n_load_steps=case["nsteps"], verbose=bool(case.get("verbose", False)), options=opts).solve()
         except (AssertionError, RuntimeError) as e:       # a loud stop; anything else is a crash and is left to the runner
             out["exc"] = f"{type(e).__name__}: {str(e)[:120]}"
     msgs = [str(w.message) for w in (rec["warns"] or [])]
